@@ -18,14 +18,60 @@ fn slim(entries: &[Value]) -> Vec<Value> {
         .collect()
 }
 
+/// The recorded steps of one break_cycles run (hook cycle_event), preceded by a `bc_run` event
+/// that gives the run's roots and the containment graph as the run itself saw it (children of a
+/// node = what its bc_visit step partitioned into snip and descend), and followed by `bc_end`.
+fn emit_cycle_run(bc: &mut Out, case: usize, call: usize, log: &[Value]) {
+    if log.is_empty() {
+        return;
+    }
+    let roots: Vec<Value> = log.iter().filter(|e| e["ev"] == "bc_root").map(|e| e["id"].clone()).collect();
+    let mut ids: Vec<u64> = vec![];
+    let mut graph = serde_json::Map::new();
+    for e in log {
+        let mut mention = |v: &Value| {
+            if let Some(n) = v.as_u64() {
+                if !ids.contains(&n) {
+                    ids.push(n);
+                }
+            }
+        };
+        mention(&e["id"]);
+        for c in e["snip"].as_array().unwrap().iter().chain(e["descend"].as_array().unwrap().iter()) {
+            mention(c);
+        }
+        if e["ev"] == "bc_visit" {
+            let mut ch = e["snip"].as_array().unwrap().clone();
+            ch.extend(e["descend"].as_array().unwrap().iter().cloned());
+            graph.insert(e["id"].to_string(), Value::Array(ch));
+        }
+    }
+    ids.sort();
+    let nodes: Vec<Value> = ids
+        .iter()
+        .map(|n| json!({"id": n, "children": graph.get(&n.to_string()).cloned().unwrap_or(json!([]))}))
+        .collect();
+    bc.ev(json!({"ev": "bc_run", "case": case, "call": call, "roots": roots, "nodes": nodes}));
+    for e in log {
+        let mut e = e.clone();
+        e["case"] = json!(case);
+        bc.ev(e);
+    }
+    bc.ev(json!({"ev": "bc_end", "case": case, "call": call}));
+}
+
 pub fn run(cases: &str, events: &str) {
     let cases = read_cases(cases);
     let mut out = Out::new(events);
+    let mut bc = Out::new(&format!("{}.bc", events));
     for (i, case) in cases.iter().enumerate() {
         let mut ts = TypeSpace::default();
         let mut res = "ok".to_string();
-        for call in case["calls"].as_array().unwrap() {
+        for (k, call) in case["calls"].as_array().unwrap().iter().enumerate() {
+            typify_impl::verif_cycle_log_start();
             let (r, _, _) = doc::do_call(&mut ts, call);
+            let log = typify_impl::verif_cycle_log_take();
+            emit_cycle_run(&mut bc, i + 1, k + 1, &log);
             if r != "ok" {
                 res = r;
                 break;
